@@ -1,5 +1,7 @@
 import Qryn.LogQL.Process
 import Driver.C07
+import Driver.C11
+import Qryn.TraceQL.Process
 namespace Driver.C14
 open Qryn Qryn.Sql Qryn.LogQL Driver.C07
 
@@ -10,7 +12,38 @@ def ctxs? : Nat → List String → Option (List Ctx × List String)
     let (cs, rest') ← ctxs? n rest
     some (c :: cs, rest')
 
+/-! ### TraceQL: one prepared plan processed k times -/
+def tctxs? : Nat → List String → Option (List Qryn.TraceQL.Ctx × List String)
+  | 0, rest => some ([], rest)
+  | n + 1, toks => do
+    let (c, rest) ← Driver.C11.ctx? toks
+    let (cs, rest') ← tctxs? n rest
+    some (c :: cs, rest')
+
+/-- garbage in every field the theorems allow to hold anything (`isAliased` stays reset) -/
+def garbageTree : Qryn.TraceQL.PTree → Qryn.TraceQL.PTree
+  | .simple sc pfx _ _ =>
+    .simple sc pfx ⟨[.raw "GARBAGE", .raw "MORE"], [.raw "GARBAGE"], false, "garbage"⟩ ⟨"424242.000000"⟩
+  | .complex a k l r => .complex a k (garbageTree l) (garbageTree r)
+
+/-- `runsT`, optionally putting garbage into the planner fields before every execution after the first -/
+def runsTDirty (dirty : Bool) (p : Qryn.TraceQL.PTree) : List Qryn.TraceQL.Ctx → List (Qryn.TraceQL.PlanM Sel)
+  | [] => []
+  | c :: cs =>
+    let r := Qryn.TraceQL.processPlan p c
+    r.2 :: runsTDirty dirty (if dirty then garbageTree r.1 else r.1) cs
+
 def handle : List String → Option String
+  | "c14runt" :: dirty :: n :: args => do
+    let k ← n.toNat?
+    let (cs, rest) ← tctxs? k args
+    match rest with
+    | [sc] => do
+      let script ← Driver.C11.parseScript sc
+      match Qryn.TraceQL.prepare script with
+      | .error _ => some (",".intercalate (cs.map (fun _ => "ERR")))
+      | .ok p => some (",".intercalate ((runsTDirty (dirty = "1") p cs).map Driver.C11.out))
+    | _ => none
   | "c14run" :: n :: args => do
     let k ← n.toNat?
     let (cs, rest) ← ctxs? k args
